@@ -8,9 +8,13 @@
 //!     with at most n nodes in total over the structural alphabet {Solid, PaintColrGlyph(1|2|5),
 //!     PaintColrLayers(first 0..=2, count 0..=3), PaintTranslate, PaintGlyph, PaintComposite}
 //!     x clip list absent/present x cache answer Ok/Unimplemented x fill_glyph default/overridden;
-//!  B. kinds: every graph of A with at most n-1 nodes with one Translate replaced by each other
-//!     transform paint (20 kinds incl. variable ones) or one Solid replaced by each other fill
-//!     (9 kinds incl. degenerate gradients), with and without a variation store, at two locations;
+//!  G. multi-kind products: every forest of at most 3 (quick) / 4 (thorough) nodes in which each node
+//!     ranges over the full alphabet (10 fills incl. variable and degenerate ones, 21 unary kinds,
+//!     ColrGlyph x3, ColrLayers x12, Composite); graphs with a variable paint with and without a
+//!     variation store, at two locations;
+//!  H. degenerate gradient geometry and colour lines (coincident points, zero radii, 0/360 degree
+//!     sweeps, empty/single/unordered/duplicate/out-of-range stops) x extend modes x 4 wrappers;
+//!  I. fonts where glyph 1 has both a COLR v0 record and a v1 paint, painted via get(), v1 and v0;
 //!  C. COLR v0 base glyph / layer records incl. out-of-range ranges;
 //!  D. chains of depth 63, 64, 65 and 1000 for every unary kind, both composite operands, layer chains
 //!     and PaintColrGlyph chains, each painted in a worker subprocess under a watchdog;
@@ -441,7 +445,7 @@ fn for_each_forest(trees: &[Vec<Node>], n: usize, f: &(dyn Fn(&Graph, &mut Acc) 
                 fn rec(trees: &[Vec<Node>], sizes: &[usize], slots: &mut Vec<Node>, nb: usize, f: &(dyn Fn(&Graph, &mut Acc) + Sync), acc: &mut Acc, count: &mut u64) {
                     if slots.len() == sizes.len() {
                         for clip in [false, true] {
-                            let g = Graph { bases: slots[..nb].to_vec(), layers: slots[nb..].to_vec(), clip, var_store: false };
+                            let g = Graph { bases: slots[..nb].to_vec(), layers: slots[nb..].to_vec(), clip, var_store: false, v0: None };
                             f(&g, acc);
                             *count += 1;
                         }
@@ -463,6 +467,7 @@ fn for_each_forest(trees: &[Vec<Node>], n: usize, f: &(dyn Fn(&Graph, &mut Acc) 
     total.load(Ordering::Relaxed)
 }
 
+#[allow(dead_code)]
 /// all single substitutions of a Translate by another transform kind / a Solid by another fill
 fn substitutions(n: &Node) -> Vec<(Node, bool)> {
     // returns (tree, uses_var)
@@ -502,7 +507,7 @@ fn substitutions(n: &Node) -> Vec<(Node, bool)> {
 
 fn chain_graph(kind: &str, depth: usize) -> Graph {
     let solid = || Node::Fill(Fill::Solid);
-    let mut g = Graph { bases: vec![], layers: vec![], clip: false, var_store: false };
+    let mut g = Graph { bases: vec![], layers: vec![], clip: false, var_store: false, v0: None };
     match kind {
         "ColrLayers" => {
             g.bases.push(Node::ColrLayers(0, 1));
@@ -1039,41 +1044,42 @@ fn body(run: &Run, replay: Option<&Value>) {
     let graphs_a = for_each_forest(&trees, n, &|g, acc| judge_all_modes(run, g, &coords0, acc), run, "A");
     run.count("A.graphs", graphs_a);
     eprintln!("[c13] A done at {:.1}s: {} graphs", run.elapsed(), graphs_a);
-    run.sample(json!({"family":"A","example": Graph{bases:vec![Node::Unary(Un::Glyph, Box::new(Node::ColrLayers(0,2)))], layers: vec![Node::Fill(Fill::Solid), Node::ColrLayers(0,1)], clip:true, var_store:false}.to_json()}));
+    run.sample(json!({"family":"A","example": Graph{bases:vec![Node::Unary(Un::Glyph, Box::new(Node::ColrLayers(0,2)))], layers: vec![Node::Fill(Fill::Solid), Node::ColrLayers(0,1)], clip:true, var_store:false, v0: None}.to_json()}));
 
-    // B: kind substitutions on graphs with <= n-1 nodes (no clip variation: clip=false only is
-    // produced by filtering), with/without variation store, two locations
-    let nb = n - 1;
+    // G: multi-kind products: every forest in which EACH node ranges over the full alphabet (all fills
+    // incl. variable and degenerate ones, all 21 unary kinds, ColrGlyph x3, ColrLayers x12, Composite).
+    // Graphs containing a variable paint are painted with a variation store at [] and [0.5] and also
+    // without a store at [].
+    let ng = run.tier.pick(3usize, 4usize);
+    let mut full_leaves: Vec<Node> = FILLS.iter().map(|f| Node::Fill(*f)).collect();
+    full_leaves.extend(al.leaves.iter().filter(|l| !matches!(l, Node::Fill(_))).cloned());
+    let full = Alphabet { leaves: full_leaves, unaries: UNARIES.to_vec() };
+    let full_trees = trees_up_to(&full, ng);
     let coords_var: Vec<Vec<f32>> = vec![vec![], vec![0.5]];
-    let graphs_b = AtomicU64::new(0);
-    let gb = for_each_forest(&trees, nb, &|g, acc| {
-        if g.clip {
-            return;
+    run.bound(
+        "G.multi_kind_products",
+        json!({"max_total_nodes": ng, "leaves": full.leaves.len(), "unary_kinds": full.unaries.len(), "binary": ["Composite"], "trees_by_size": full_trees.iter().map(|t| t.len()).collect::<Vec<_>>(),
+               "locations_for_graphs_with_variable_paints": [[], [0.5]], "clip_list": [false, true]}),
+    );
+    let graphs_g = for_each_forest(&full_trees, ng, &|g, acc| {
+        let var = g.bases.iter().chain(g.layers.iter()).any(uses_var);
+        if var {
+            let mut g2 = g.clone();
+            g2.var_store = true;
+            judge_all_modes(run, &g2, &coords_var, acc);
         }
-        let slots: Vec<&Node> = g.bases.iter().chain(g.layers.iter()).collect();
-        for (si, s) in slots.iter().enumerate() {
-            for (sub, var) in substitutions(s) {
-                let mut g2 = g.clone();
-                if si < g.bases.len() {
-                    g2.bases[si] = sub;
-                } else {
-                    g2.layers[si - g.bases.len()] = sub;
-                }
-                graphs_b.fetch_add(1, Ordering::Relaxed);
-                if var {
-                    g2.var_store = true;
-                    judge_all_modes(run, &g2, &coords_var, acc);
-                    g2.var_store = false;
-                    judge_all_modes(run, &g2, &coords0, acc);
-                } else {
-                    judge_all_modes(run, &g2, &coords0, acc);
-                }
-            }
-        }
-    }, run, "B");
-    run.bound("B.kinds", json!({"base_graphs_max_nodes": nb, "base_graphs": gb / 2, "transform_kinds": UNARIES.len() - 1, "fill_kinds": FILLS.len(), "locations_for_variable_paints": [[], [0.5]]}));
-    run.count("B.graphs", graphs_b.load(Ordering::Relaxed));
-    eprintln!("[c13] B done at {:.1}s: {} graphs", run.elapsed(), graphs_b.load(Ordering::Relaxed));
+        judge_all_modes(run, g, &coords0, acc);
+    }, run, "G");
+    run.count("G.graphs", graphs_g);
+    eprintln!("[c13] G done at {:.1}s: {} graphs", run.elapsed(), graphs_g);
+
+    // H: degenerate gradient geometry and colour lines ("returns and is balanced" only)
+    family_gradients(run);
+    eprintln!("[c13] H done at {:.1}s", run.elapsed());
+
+    // I: fonts where glyph 1 has both a COLR v0 record and a v1 paint
+    family_mixed(run);
+    eprintln!("[c13] I done at {:.1}s", run.elapsed());
 
     // C: COLR v0
     family_v0(run);
@@ -1115,6 +1121,110 @@ fn body(run: &Run, replay: Option<&Value>) {
     // F: corpus deviations
     family_dev(run);
     eprintln!("[c13] F done at {:.1}s", run.elapsed());
+}
+
+
+fn family_gradients(run: &Run) {
+    let stops = grad_stop_lists().len() as u8;
+    let mut specs = vec![];
+    for kind in 0..3u8 {
+        for geom in 0..grad_geom_count(kind) {
+            for st in 0..stops {
+                for extend in 0..3u8 {
+                    specs.push(GradSpec { kind, geom, stops: st, extend });
+                }
+            }
+        }
+    }
+    run.bound(
+        "H.gradients",
+        json!({"linear_points_p0_p1_p2_each_from": GRAD_POINTS, "radial": {"centres": [GRAD_POINTS[0], GRAD_POINTS[3]], "radii": GRAD_RADII}, "sweep_angles_f2dot14": GRAD_ANGLES,
+               "stop_offset_lists": grad_stop_lists(), "extend": ["Pad","Repeat","Reflect"], "wrappers": ["root", "PaintGlyph", "PaintTranslate", "PaintGlyph(PaintScale)"], "specs": specs.len()}),
+    );
+    let coords0: Vec<Vec<f32>> = vec![vec![]];
+    specs.par_chunks(64).for_each(|chunk| {
+        let mut acc = Acc::new();
+        for s in chunk {
+            let leaf = Node::Grad(*s);
+            for root in [
+                leaf.clone(),
+                Node::Unary(Un::Glyph, Box::new(leaf.clone())),
+                Node::Unary(Un::Translate, Box::new(leaf.clone())),
+                Node::Unary(Un::Glyph, Box::new(Node::Unary(Un::Scale, Box::new(leaf.clone())))),
+            ] {
+                let g = Graph { bases: vec![root], layers: vec![], clip: false, var_store: false, v0: None };
+                judge_all_modes(run, &g, &coords0, &mut acc);
+            }
+        }
+        flush(run, acc, "H");
+    });
+    run.count("H.gradient_specs", specs.len() as u64);
+}
+
+/// glyph 1 exists both as a v0 base glyph and as a v1 base glyph paint: `get` must pick one
+/// representation and each representation must paint balanced
+fn family_mixed(run: &Run) {
+    let al = structural_alphabet();
+    let trees = trees_up_to(&al, 2);
+    let mut graphs = vec![];
+    for t in trees[1].iter().chain(trees[2].iter()) {
+        for nrec in 0..=2u16 {
+            for first in 0..=2u16 {
+                for num in 0..=3u16 {
+                    for nl in 0..=1usize {
+                        graphs.push(Graph { bases: vec![t.clone()], layers: vec![Node::Fill(Fill::Solid); nl], clip: false, var_store: false, v0: Some((first, num, nrec)) });
+                    }
+                }
+            }
+        }
+    }
+    run.bound("I.mixed_v0_v1", json!({"v1_trees_max_nodes": 2, "v0_layer_records": "0..=2", "v0_first": "0..=2", "v0_num_layers": "0..=3", "layer_list_len": [0, 1], "fonts": graphs.len()}));
+    graphs.par_chunks(256).for_each(|chunk| {
+        let mut acc = Acc::new();
+        for g in chunk {
+            let Ok(Ok(font)) = guard(|| build_font(g)) else {
+                run.count("graphs_not_buildable", 1);
+                continue;
+            };
+            for cache_ok in [false, true] {
+                let case = json!({"kind":"mixed","graph":g.to_json(),"cache_ok":cache_ok});
+                let mut streams = vec![];
+                for format in [None, Some(ColorGlyphFormat::ColrV1), Some(ColorGlyphFormat::ColrV0)] {
+                    acc.runs += 1;
+                    match paint(&font, 1, format, &[], cache_ok, true, 10_000) {
+                        Ok(p) => {
+                            run.trans(p.events.len() as u64 + 1);
+                            if let Some(Ok(())) = &p.result {
+                                acc.ok += 1;
+                                if let Err(why) = dyck(&p.events) {
+                                    run.violation(&format!("ColorGlyph::paint Ok with unbalanced callbacks: {why}"), &format!("mixed v0+v1 font {} format {:?}: {:?}", g.to_json(), format.map(|f| f as u8), p.events), case.clone());
+                                }
+                            } else if p.result.is_some() {
+                                acc.err += 1;
+                            }
+                            let d = digest_of(&("mixed", g, cache_ok, format.map(|f| f as u8), p.result.as_ref().map(|r| r.is_ok()), &p.events));
+                            acc.all.insert(d);
+                            if dyck(&p.events).map(|n| n > 0).unwrap_or(false) {
+                                acc.nontrivial.insert(d);
+                            }
+                            streams.push((p.result.map(|r| r.is_ok()), p.events));
+                        }
+                        Err(pi) => {
+                            run.violation(&format!("ColorGlyph::paint panic: {} in {}", pi.kind(), pi.site()), &format!("mixed v0+v1 font {}: {}", g.to_json(), pi.message), case.clone());
+                            streams.push((None, vec![]));
+                        }
+                    }
+                }
+                // `get` prefers the v1 representation: same outcome as get_with_format(ColrV1)
+                // (recorded only: which representation `get` prefers is not part of the statement)
+                if streams.len() == 3 && streams[0] != streams[1] {
+                    run.count("I.get_differs_from_v1_representation", 1);
+                }
+            }
+        }
+        flush(run, acc, "I");
+    });
+    run.count("I.fonts", graphs.len() as u64);
 }
 
 fn family_v0(run: &Run) {
@@ -1185,6 +1295,7 @@ fn replay_case(run: &Run, case: &Value) {
             println!("replay: {o}");
         }
         "glyph_chain_timing" => glyph_chain_timing(run),
+        "mixed" => println!("replay: re-run the tier for the mixed v0+v1 family (graph: {})", case["graph"]),
         "dev" => {
             let rel = case["font"].as_str().unwrap_or("").to_string();
             let off = case["offset"].as_u64().unwrap_or(0) as usize;
